@@ -131,6 +131,48 @@ def resample_case(case):
     return probs
 
 
+def dspseq_case(case):
+    """DspSeq.tla: crop_data / truncation / frequency2phase case tables."""
+    import math
+    from speckit import dsp
+    cfg, out = case["cfg"], case["outcome"]
+    x = np.array(cfg["x"], dtype=float)
+    x0 = x.copy()
+    probs = []
+    try:
+        if cfg["fn"] == "crop":
+            y = np.arange(cfg["ly"], dtype=float) * 10.0 + 1.0
+            gx, gy = dsp.crop_data(x, y, cfg["lo"], cfg["hi"])
+            if out["kind"] == "error":
+                return [("missing_error", "crop", cfg)]
+            idx = [i - 1 for i in out["idx"]]
+            if list(gx) != [x[i] for i in idx] or list(gy) != [y[i] for i in idx]:
+                probs.append(("crop_values", (list(gx), list(gy)), idx))
+        elif cfg["fn"] == "trunc":
+            g = dsp.truncation(x, cfg["n"])
+            if out["kind"] == "error":
+                return [("missing_error", "trunc", cfg)]
+            if out["kind"] == "same":
+                if g is not x:
+                    probs.append(("zero_truncation_is_identity", "copy", "same object"))
+            elif list(g) != [x[i - 1] for i in out["idx"]]:
+                probs.append(("trunc_values", list(g), out["idx"]))
+        else:
+            fs = 4.0
+            g = dsp.frequency2phase(x, fs, subtract_mean=cfg["m"])
+            if out["kind"] == "error":
+                return [("missing_error", "f2p", cfg)]
+            exp = np.array(out["nsum"], dtype=float) / len(x) * (2 * math.pi / fs)
+            if g.shape != exp.shape or not np.allclose(g, exp, rtol=0, atol=1e-12):
+                probs.append(("phase_values", list(g), list(exp)))
+    except ValueError as exc:
+        if out["kind"] != "error":
+            probs.append(("unexpected_error", str(exc)[:60], out["kind"]))
+    if not np.array_equal(x, x0):
+        probs.append(("input_modified", list(x), list(x0)))
+    return probs
+
+
 def run(tier):
     V = common.Verdict(PID, tier, "model_checking")
     res = tlc.run_model("Config", f"{PID}_config", constants=dict(EmitCases=True), invariants=["AlphaOnlyForKaiser", "Emit"])
@@ -168,6 +210,16 @@ def run(tier):
         V.case(c, not c["empty"])
         for (what, got, exp) in probs:
             V.violation(f"{PID}|resample|{what}|frames={len(c['frames'])}", {"kind": "resample", "case": c, "message": f"resample_to_common_grid: {what}: {got} vs {exp} for {c['frames']} fs={c['fs']}"})
+    rd = tlc.run_model("DspSeq", f"{PID}_dspseq", constants=dict(MaxLen=3 if tier == "quick" else 4, Vals=tlc.Raw("{-1, 0, 2}"), EmitCases=True),
+                       invariants=["CropKeepsOrderAndOnlyInRange", "TruncIsSymmetric", "MeanFreePhaseReturnsToZero", "Emit"])
+    if rd.violated:
+        raise tlc.TLCError(f"DspSeq.tla violates {rd.violated}")
+    V.model(rd, "DspSeq.tla: crop_data, truncation, frequency2phase case tables")
+    dcs = rd.json_prints()
+    for c, probs in zip(dcs, common.pmap(dspseq_case, dcs, chunksize=128)):
+        V.case(c["cfg"], c["outcome"]["kind"] != "error")
+        for (what, got, exp) in probs:
+            V.violation(f"{PID}|dspseq|{c['cfg']['fn']}|{what}", {"kind": "dspseq", "case": c, "message": f"{c['cfg']}: {what}: got {got}, model {exp}"})
     re_ = tlc.run_model("ExactCheck", f"{PID}_exact", constants=dict(Range=16 if tier == "quick" else 24),
                         invariants=["CmpFracIsCrossMultiplication", "CmpFracScaled", "MulQ20Exact", "MulQ20Close", "RoundingOps", "RationalOps"])
     if re_.violated:
